@@ -485,7 +485,7 @@ Definition no_dirty_implies_same (cs : list change) (base t : ktree) : bool :=
 (* one native history: for every revision
      [incremental root structure; yielded paths; from-scratch structure; listing of the tree minus
       empty directories; listing after push (of the INCREMENTAL export) + fetch] *)
-Fixpoint run_native_aux (done : list ktree) (h : hist) : list obs :=
+Fixpoint run_native_aux (done : list ktree) (roots : list gobj) (h : hist) : list obs :=
   match h with
   | [] => []
   | (ps, t) :: r =>
@@ -495,15 +495,16 @@ Fixpoint run_native_aux (done : list ktree) (h : hist) : list obs :=
       let others := map flat (tl ptrees) in
       let cs := changes basef (flat t) in
       let cache := cache_of done in
-      let proot := match ptrees with b :: _ => Some (to_git_root [] (erase b)) | [] => None end in
+      (* the root tree the left-hand parent was actually exported with (it may be stale, see the refutation) *)
+      let proot := match ps with p :: _ => Some (nth p roots (GTree [])) | [] => None end in
       let inc := incremental HbG HtG cache others cs [] proot t in
       OL [obs_g inc;
           OL (map OB (yields cache others cs [] t));
           obs_g (to_git_root [] (erase t));
           match drop_empty true (erase t) with Some d => olisting d | None => ON end;
-          olisting (of_git M_DIR inc)] :: run_native_aux (done ++ [t]) r
+          olisting (of_git M_DIR inc)] :: run_native_aux (done ++ [t]) (roots ++ [inc]) r
   end.
-Definition run_native (h : hist) : obs := OL (run_native_aux [] h).
+Definition run_native (h : hist) : obs := OL (run_native_aux [] [] h).
 
 (* one git-origin history: for every commit tree
      [listing of the imported Bazaar tree; unusual modes; re-exported structure] *)
